@@ -753,7 +753,7 @@ def coq_diff(ck, pairs, label, fixed=True):
             continue
         cur.append((case, res))
         n += len(case["calls"])
-        if n >= 350:
+        if n >= (350 if ck.tier == "thorough" else 230):
             files.append(cur)
             cur, n = [], 0
     if cur:
